@@ -3,6 +3,7 @@ package props
 import (
 	"encoding/json"
 	"fmt"
+	"os"
 	"sort"
 	"time"
 
@@ -112,6 +113,9 @@ func readVector(tx *txfile.Tx, ids []uint64) map[uint64][]byte {
 			continue
 		}
 		out[id] = append([]byte(nil), b...)
+		if os.Getenv("VERIF_DEBUG_IO") != "" {
+			fmt.Printf("    [io] thread %d reads page %d: %s\n", sched.Self(), id, pagedrv.Describe(b))
+		}
 	}
 	return out
 }
